@@ -156,6 +156,13 @@ enum LogosToken {
   Int,
 }
 
+/// Whether the entire text is one identifier (and not a keyword).
+pub(super) fn is_identifier(text: &str) -> bool {
+  let mut lexer = LogosToken::lexer(text);
+  matches!(lexer.next(), Some(Ok(LogosToken::UpperId | LogosToken::LowerId)))
+    && lexer.span().end == text.len()
+}
+
 struct WrappedLogosLexer<'a> {
   lexer: logos::Lexer<'a, LogosToken>,
   module_reference: ModuleReference,
